@@ -415,6 +415,16 @@ def run(repo: Repo, chk: Check):
                         nonneg = True
             chk.judge("R08.g", "utils:format_int:hex spelling only for non-negative values", nonneg,
                       "the '$HEX' spelling is reachable for negative values ('$-1F' is not an IC10 number)", None, wfi)
+            # ... and only below 2**53: a '$' literal is a 64 bit integer (1e20 needs 17 hex digits, 2**63 reads back negative)
+            upper = None
+            for tst, p in conds:
+                for part, pol in _disj(tst, p):
+                    ub = compare_upper_bound(part, pol)
+                    if ub and ub[0] == {vp: 1}:
+                        upper = ub[1] if upper is None else min(upper, ub[1])
+            chk.judge("R08.g", "utils:format_int:hex spelling only for values below 2**53", upper is not None and upper < 2 ** 63,
+                      f"the '$HEX' spelling is reachable for values of any size (upper bound on the path: {upper}): a '$' literal is a 64 bit integer, "
+                      f"so 1e20 is emitted with 17 hex digits and values from 2**63 on read back negative", {"upper_bound": upper}, wfi)
         else:
             chk.bad("R08.g", f"utils:format_int:return {norm(v)[:50]}", "spelling is neither str(value) nor '$' + hex of the same value", None, wfi)
     if n_paths < 2:
